@@ -293,6 +293,7 @@ func (e *pathEnv) callPath(c *ssa.CallCommon) *Path {
 		for _, a := range c.Args {
 			p.Args = append(p.Args, e.of(a))
 		}
+		normMessageArgs(c, p)
 		return p
 	}
 	switch f := c.Value.(type) {
@@ -313,7 +314,72 @@ func (e *pathEnv) callPath(c *ssa.CallCommon) *Path {
 	for _, a := range c.Args {
 		p.Args = append(p.Args, e.of(a))
 	}
+	normMessageArgs(c, p)
 	return p
+}
+
+// normMessageArgs replaces human-readable message arguments — error texts and their printed
+// operands, lock-reason strings — by a placeholder: they are not behaviour any property speaks
+// about, and a reworded message must not change a canonical form. What an error *wraps* is kept.
+func normMessageArgs(c *ssa.CallCommon, p *Path) {
+	dots := &Path{Kind: "const", Name: "…"}
+	if c.IsInvoke() {
+		if c.Method.Name() == "AcquireInsert" && len(p.Args) == 2 {
+			p.Args[1] = dots
+		}
+		return
+	}
+	f, ok := c.Value.(*ssa.Function)
+	if !ok {
+		return
+	}
+	pkg := ""
+	if f.Pkg != nil {
+		pkg = f.Pkg.Pkg.Path()
+	} else if o := f.Object(); o != nil && o.Pkg() != nil {
+		pkg = o.Pkg().Path()
+	}
+	off := 0
+	if f.Signature.Recv() != nil {
+		off = 1
+	}
+	switch {
+	case f.Name() == "AcquireInsert" && len(p.Args) == off+1:
+		p.Args[off] = dots
+	case (pkg == "github.com/pkg/errors" || pkg == "errors") && (f.Name() == "Errorf" || f.Name() == "New"):
+		p.Args = []*Path{dots}
+	case pkg == "github.com/pkg/errors" && (f.Name() == "Wrap" || f.Name() == "Wrapf" || f.Name() == "WithMessage" || f.Name() == "WithMessagef") && len(p.Args) >= 1:
+		p.Args = []*Path{p.Args[0], dots}
+	case pkg == "fmt" && f.Name() == "Errorf":
+		var wrapped *Path
+		if k, ok := c.Args[0].(*ssa.Const); ok && k.Value != nil && k.Value.Kind() == constant.String && len(p.Args) == 2 {
+			format := constant.StringVal(k.Value)
+			verb := -1
+			for i := 0; i+1 < len(format); i++ {
+				if format[i] != '%' {
+					continue
+				}
+				if format[i+1] == '%' {
+					i++
+					continue
+				}
+				verb++
+				j := i + 1
+				for j < len(format) && strings.ContainsRune("+-# 0123456789.", rune(format[j])) {
+					j++
+				}
+				if j < len(format) && format[j] == 'w' && p.Args[1].Kind == "call" && p.Args[1].Name == "list" && verb < len(p.Args[1].Args) {
+					wrapped = p.Args[1].Args[verb]
+				}
+				i = j
+			}
+		}
+		if wrapped != nil {
+			p.Args = []*Path{{Kind: "const", Name: "%w"}, wrapped}
+		} else {
+			p.Args = []*Path{dots}
+		}
+	}
 }
 
 func (e *pathEnv) compute(v ssa.Value) *Path {
